@@ -128,9 +128,21 @@ _HERE = os.path.dirname(os.path.dirname(os.path.abspath(__file__)))
 def _raised_by_contract(e: BaseException) -> bool:
     if isinstance(e, AttributeError):
         # the code under contract asks a stub of the contract for an attribute the stub does not model
-        mod = getattr(type(getattr(e, "obj", None)), "__module__", "") or ""
-        if getattr(e, "obj", None) is not None and (mod.startswith("contracts.") or mod.startswith("vf.")):
+        obj = getattr(e, "obj", None)
+        mod = getattr(obj if isinstance(obj, type) else type(obj), "__module__", "") or ""
+        if obj is not None and (mod.startswith("contracts.") or mod.startswith("vf.")):
             return True
+    if isinstance(e, TypeError):
+        # the code under contract calls a stub of the contract with a shape the stub does not accept (a parameter was added):
+        # "<qualname>() got an unexpected keyword argument ..." / "takes N positional arguments but M were given" / "missing ..."
+        import re as _re_
+        import sys as _sys_
+        m = _re_.match(r"([\w.<>]+)\(\) (?:got an unexpected keyword argument|got multiple values|takes |missing )", str(e))
+        if m:
+            head = m.group(1).split(".")[0]
+            for name, module in list(_sys_.modules.items()):
+                if name.startswith("contracts.") and hasattr(module, head):
+                    return True
     tb = e.__traceback__
     last = None
     while tb is not None:
@@ -194,6 +206,54 @@ class SymBool:
 
     def __invert__(self):
         return SymBool(z3.Not(self.t))
+
+    @staticmethod
+    def _bt(o):
+        if isinstance(o, SymBool):
+            return o.t
+        if isinstance(o, bool):
+            return z3.BoolVal(o)
+        return None
+
+    def __eq__(self, o):
+        t = self._bt(o)
+        if t is None:
+            if isinstance(o, int) and not isinstance(o, SymInt) and o in (0, 1):
+                t = z3.BoolVal(bool(o))
+            else:
+                raise Unsupported(f"comparison of a symbolic truth value with {type(o).__name__}")
+        return SymBool(z3.simplify(self.t == t))
+
+    def __ne__(self, o):
+        return SymBool(z3.Not(self.__eq__(o).t))
+
+    __hash__ = object.__hash__
+
+    def __and__(self, o):
+        t = self._bt(o)
+        if t is None:
+            raise Unsupported("& between a symbolic truth value and a non-boolean")
+        return SymBool(z3.And(self.t, t))
+
+    def __or__(self, o):
+        t = self._bt(o)
+        if t is None:
+            raise Unsupported("| between a symbolic truth value and a non-boolean")
+        return SymBool(z3.Or(self.t, t))
+
+    def __xor__(self, o):
+        t = self._bt(o)
+        if t is None:
+            raise Unsupported("^ between a symbolic truth value and a non-boolean")
+        return SymBool(z3.Xor(self.t, t))
+
+    __rand__, __ror__, __rxor__ = __and__, __or__, __xor__
+
+    def _unsup(self, *a, **k):
+        raise Unsupported("a symbolic truth value used as a number / text")
+
+    __int__ = __index__ = __float__ = __str__ = __format__ = __add__ = __radd__ = __sub__ = __rsub__ = __mul__ = __rmul__ = _unsup
+    __lt__ = __le__ = __gt__ = __ge__ = _unsup
 
     def __repr__(self):
         return f"SymBool({self.t})"
@@ -353,6 +413,12 @@ class Name(str):
         return hash(("Name", self.ident))
 
     def startswith(self, p, *a):
+        if not a and type(p) is tuple and all(isinstance(x, str) for x in p):
+            # str.startswith(tuple): any of them, tried in order
+            for x in p:
+                if self.startswith(x):
+                    return True
+            return False
         if a or not isinstance(p, str):
             raise Unsupported("Name.startswith form")
         if self.category == "at":          # a macro-like name: begins with '@'
@@ -537,6 +603,11 @@ class HexStr(Name):
         if isinstance(k, slice) and k.start == 2 and k.stop is None and k.step is None and self.with_0x:
             return HexStem(self.ident, "stem")
         raise Unsupported("HexStr.__getitem__ form")
+
+    def removeprefix(self, p):
+        if p == "0x":
+            return HexStem(self.ident, "stem") if self.with_0x else self
+        raise Unsupported("HexStr.removeprefix form")
 
 
 class StarOperand(Name):
